@@ -28,9 +28,9 @@ out.append("\n------------------------------------------------------------------
            "passes the 153 existing tests, and comes with a demonstration that fails with the change and passes without it\n"
            "(confirmed here with `tools/confirm_seed.sh`).  They are kept under `seeded/<id>-<a|b|c|d>/` (`patch.diff`, demo,\n"
            "`meta.json`) and were run with `tools/try_seed.sh` (apply to /repo, `./check`, undo).\n\n"
-           "Round 2 (`-c`, `-d`) was run against the checks as they stood after round 1: 25 of 40 were reported at once, 15 were\n"
-           "MISSED (C01-c, C02-c, C03-c, C03-d, C04-d, C05-d, C06-c, C08-d, C10-c, C10-d, C11-c, C11-d, C12-c, C15-c, C18-c, C18-d,\n"
-           "C19-c, C19-d minus the three caught by the thorough tier only).  Every miss was a generator that did not reach the\n"
+           "Round 2 (`-c`, `-d`) was run against the checks as they stood after round 1: 22 of 40 were reported at once, 18 were\n"
+           "MISSED by the quick tier (C01-c, C02-c, C03-c, C03-d, C04-d, C05-d, C06-c, C08-d, C10-c, C10-d, C11-c, C11-d, C12-c,\n"
+           "C15-c, C18-c, C18-d, C19-c, C19-d; of these C18-c would have been found by the thorough tier's 2^33 sweep).  Every miss was a generator that did not reach the\n"
            "triggering shape, never a wrong oracle; what was added, never special-cased to the patch: stacked unary operators and\n"
            "implementation-only 200000-operator probes, a nesting-counter-is-zero-between-calls oracle (C01); exhaustive string\n"
            "comparisons incl. never-assigned variables (C02); same-name nested FN parameters, several DATA statements with\n"
